@@ -540,16 +540,19 @@ inst("mean_w_drop", "t")(lambda n: _mean_ax(n, [2], keep=False))
 inst("mean_batch1", "t")(lambda n: _mean_ax(n, [0]) if n.T(n.cur)["shape"][0] == 1 else False)
 
 
-@inst("argmax", "t")
-def _argmax(net):
+def _argmax(net, out="int32"):
     x = net.cur
     t = net.T(x)
     if not _hw4(net) or t["dtype"] == "int16" or t["shape"][3] > 127:
         return False
     ax = net.const([], "int32", "data", values=3)
-    y = net.act(t["shape"][:3], "int32", noquant=True)
-    net.op("ARG_MAX", [x, ax], [y], ("ArgMaxOptions", dict(OutputType=2)))
+    y = net.act(t["shape"][:3], out, noquant=True)
+    net.op("ARG_MAX", [x, ax], [y], ("ArgMaxOptions", dict(OutputType=2 if out == "int32" else 4)))
     return True
+
+
+inst("argmax", "t")(_argmax)
+inst("argmax64", "t")(lambda n: _argmax(n, "int64"))
 
 
 def _resize(net, op, factor=2, align=False, half=False):
